@@ -200,7 +200,28 @@ func MetadataName(name string) string {
 		// metadata.
 		return "!" + `\3` + name[:1] + string(Escape([]byte(name[1:]), valid))
 	}
+	if specializedNodeNames[name] {
+		// Escape first character if the name is that of a specialized metadata
+		// node, as `!DILocation` is a token of its own; e.g.
+		//
+		//    !\44ILocation = !{}
+		const hextable = "0123456789ABCDEF"
+		return "!" + `\` + string([]byte{hextable[name[0]>>4], hextable[name[0]&0x0F]}) + name[1:]
+	}
 	return "!" + string(Escape([]byte(name), valid))
+}
+
+// specializedNodeNames are the names of the specialized metadata nodes; the
+// lexer reads `!` followed by one of them as a single token.
+var specializedNodeNames = map[string]bool{
+	"DIArgList": true, "DIBasicType": true, "DICommonBlock": true, "DICompileUnit": true,
+	"DICompositeType": true, "DIDerivedType": true, "DIEnumerator": true, "DIExpression": true,
+	"DIFile": true, "DIGlobalVariable": true, "DIGlobalVariableExpression": true,
+	"DIImportedEntity": true, "DILabel": true, "DILexicalBlock": true, "DILexicalBlockFile": true,
+	"DILocalVariable": true, "DILocation": true, "DIMacro": true, "DIMacroFile": true,
+	"DIModule": true, "DINamespace": true, "DIObjCProperty": true, "DIStringType": true,
+	"DISubprogram": true, "DISubrange": true, "DISubroutineType": true,
+	"DITemplateTypeParameter": true, "DITemplateValueParameter": true, "GenericDINode": true,
 }
 
 // MetadataID encodes a metadata ID to its LLVM IR assembly representation.
